@@ -89,6 +89,9 @@ def run(ctx: Context) -> None:
     ctx.rule(c20.moments)
     # invariance under reordering of the ensemble members of the likelihood loss rests on its pipeline (every member against every real point, one reduction)
     ctx.rule(c07.r3_likelihood)
+    # non-negativity and 'zero when every member equals the real data' of the Minkowski and Fourier losses rest on their formulas (norm of a difference)
+    ctx.rule(c07.r3_minkowski)
+    ctx.rule(c07.r3_fourier)
 
 
 def r1_purity(ctx: Context) -> None:
